@@ -560,6 +560,118 @@ func runPubSubLine(bi int, steps []lstep, _ *logrus.Entry, emit func(map[string]
 	}
 }
 
+// ---------------------------------------------------------------- solicitation line a - b - c (SolicitLine.tla)
+
+func runSolicitLine(bi int, steps []lstep, le *logrus.Entry, emit func(map[string]any)) {
+	ctx, cancel := context.WithCancel(context.Background())
+	defer cancel()
+	names := []string{"a", "b", "c"}
+	nodes := map[string]*side{}
+	for _, n := range names {
+		nodes[n] = startSide(ctx, le, "twonode/sline/"+n, nil)
+	}
+	defer func() {
+		for _, s := range nodes {
+			s.tb.Release()
+		}
+	}()
+	for _, x := range names {
+		for _, y := range names {
+			if x != y {
+				nodes[x].tpt.ConnectToInproc(ctx, nodes[y].tpt)
+			}
+		}
+	}
+	emit(map[string]any{"e": "reset", "b": bi})
+	d := solDefs["p"]
+	for _, st := range steps {
+		switch st.A {
+		case "link":
+			x, y := nodes[st.E[0]], nodes[st.E[1]]
+			go func() { _, _, _ = link.EstablishLinkWithPeerEx(ctx, y.tb.Bus, "", x.tb.PeerID, false) }()
+			go func() {
+				_, _ = y.tpc.DialPeerAddr(ctx, x.tb.PeerID, &dialer.DialerOpts{Address: x.tpt.LocalAddr().String()})
+			}()
+			linked := false
+			for i := 0; i < 4000 && !linked; i++ {
+				linked = len(x.tpc.GetPeerLinks(y.tb.PeerID)) > 0 && len(y.tpc.GetPeerLinks(x.tb.PeerID)) > 0
+				if !linked {
+					time.Sleep(5 * time.Millisecond)
+				}
+			}
+			if !linked {
+				vio.Fatal("link %v did not come up within 20 s", st.E)
+			}
+		case "add":
+			s := nodes[st.N]
+			_, ref, err := s.tb.Bus.AddDirective(link_solicit.NewSolicitProtocol(d.proto, d.ctx, "", 0),
+				directive.NewTypedCallbackHandler[link_solicit.SolicitMountedStream](func(v directive.TypedAttachedValue[link_solicit.SolicitMountedStream]) {
+					s.mu.Lock()
+					dup := false
+					for _, e := range s.vals["p"] {
+						dup = dup || e == v.GetValue()
+					}
+					if !dup {
+						s.vals["p"] = append(s.vals["p"], v.GetValue())
+					}
+					s.mu.Unlock()
+				}, nil, nil, nil))
+			if err != nil {
+				vio.Fatal("add directive: %v", err)
+			}
+			s.refs["p"] = ref
+		}
+		emit(map[string]any{"e": "ev", "a": st.A, "n": st.N, "e2": st.E})
+	}
+	count := func(n string) int {
+		s := nodes[n]
+		s.mu.Lock()
+		defer s.mu.Unlock()
+		return len(s.vals["p"])
+	}
+	// eventually (bound 15 s): a 1, b 2, c 1; then a moment longer for surplus streams
+	for dl := time.Now().Add(15 * time.Second); time.Now().Before(dl) && !(count("a") == 1 && count("b") == 2 && count("c") == 1); {
+		time.Sleep(20 * time.Millisecond)
+	}
+	time.Sleep(250 * time.Millisecond)
+	got := map[string]int{"a": count("a"), "b": count("b"), "c": count("c")}
+	// pairing: accept everything; a token written by a (c) must come out of one of b's streams
+	pairs := map[string]string{"ab": "none", "bc": "none"}
+	if got["a"] == 1 && got["b"] == 2 && got["c"] == 1 {
+		var bs []link.MountedStream
+		for _, v := range nodes["b"].vals["p"] {
+			if ms, _, err := v.AcceptMountedStream(); err == nil && ms != nil {
+				bs = append(bs, ms)
+			}
+		}
+		for _, end := range []string{"a", "c"} {
+			key := "ab"
+			if end == "c" {
+				key = "bc"
+			}
+			pairs[key] = "mismatch"
+			ms, _, err := nodes[end].vals["p"][0].AcceptMountedStream()
+			if err != nil || ms == nil || len(bs) != 2 {
+				pairs[key] = "accepterr"
+				continue
+			}
+			token := []byte("token-" + end)
+			go func() { _, _ = ms.GetStream().Write(token) }()
+			for _, b := range bs {
+				if b.GetPeerID() != nodes[end].tb.PeerID {
+					continue
+				}
+				buf := make([]byte, 64)
+				_ = b.GetStream().SetReadDeadline(time.Now().Add(3 * time.Second))
+				if n, err := b.GetStream().Read(buf); err == nil && string(buf[:n]) == string(token) {
+					pairs[key] = "ok"
+				}
+			}
+		}
+	}
+	emit(map[string]any{"e": "final", "got": got, "pairs": pairs})
+}
+
 func main() {
 	cases := flag.String("cases", "", "")
 	outp := flag.String("out", "", "")
@@ -573,6 +685,36 @@ func main() {
 	}
 	le := logrus.NewEntry(lg)
 	out := vio.NewOut(*outp)
+	if *mode == "solicitline" {
+		var ph [][]lstep
+		for _, raw := range vio.ReadCases(*cases) {
+			var h []lstep
+			if err := json.Unmarshal(raw, &h); err != nil {
+				vio.Fatal("%v", err)
+			}
+			ph = append(ph, h)
+		}
+		results := make([][]map[string]any, len(ph))
+		sem := make(chan struct{}, 10)
+		var wg sync.WaitGroup
+		for i, h := range ph {
+			wg.Add(1)
+			sem <- struct{}{}
+			go func(i int, h []lstep) {
+				defer wg.Done()
+				defer func() { <-sem }()
+				runSolicitLine(i, h, le, func(m map[string]any) { results[i] = append(results[i], m) })
+			}(i, h)
+		}
+		wg.Wait()
+		for _, evs := range results {
+			for _, e := range evs {
+				out.Emit(e)
+			}
+		}
+		out.Close()
+		return
+	}
 	if *mode == "pubsubline" {
 		var ph [][]lstep
 		for _, raw := range vio.ReadCases(*cases) {
